@@ -58,8 +58,8 @@ ASSUMPTIONS = ['dask merges the graphs handed to one compute call by task name (
 # ---------------------------------------------------------------------------------------------------
 # The failing-input search after a broken translator item: model files that read the missing definition do not compile and
 # the pipeline leaves them out of the driver it rebuilds.  This module is imported BEFORE the pipeline regenerates anything,
-# so the driver found at import time is the one of the last good tree: keep a copy of it (only if it is up to date with the
-# model sources on disk and contains every wire of this check) and let the search use it when wires of this check are missing.
+# so the driver found at import time is the one of the previous tree: keep a copy of it (only if it is up to date with the
+# model sources on disk, contains every wire of this check and the proofs of this check are up to date with it = a good tree) and let the search use it when wires of this check are missing.
 
 C07_WIRES = (7, 71, 72, 73, 74)
 C07_MODEL_SOURCES = ('Model/Chunks.v', 'Model/ChunksMulti.v', 'Model/ChunksGenPy.v', 'Model/ChunksUrl.v', 'Base/Sx.v')
@@ -86,6 +86,11 @@ def _snapshot_driver():
             return
         st = open(stamp).read()
         if st != core.model_hash() + '|':          # not the driver of the sources on disk
+            return
+        # ... of a GOOD tree: the proofs of this check are compiled against the very Generated.v the driver was built from
+        # (after a run whose translator passed but whose proofs broke, Props/C07.vo is out of date)
+        rc, _ = core.sh('timeout 20 make -q Props/C07.vo', cwd=core.COQ, timeout=30)
+        if rc != 0:
             return
         dst = os.path.join(core.VERIF, 'build', 'c07_last_good')
         tag = st + _sources_hash(core)
